@@ -1,8 +1,8 @@
 """Stage 2 of the C06 check: the texts returned by the derived GoString functions (stage 1 = the
 corpus program's answers) are assembled into a second Go program, one function per distinct
 (type, text), each text on known lines; the program is compiled by the real Go compiler inside the
-corpus module (so it imports the types' packages `corpus/p` and `corpus/ext` under the names the
-texts use: p, ext), run, and prints per op the canonical observation of the evaluated value plus
+corpus module (so it imports the types' packages — `corpus/p`, `corpus/ext`, `corpus/ext3/v2` (package ext3),
+`corpus/go-lib` (package golib) — under their DECLARED names, which is what the texts must use), run, and prints per op the canonical observation of the evaluated value plus
 `eq=` reflect.DeepEqual(original, evaluated). A text the compiler rejects is attributed to its op by
 the file:line of the diagnostics, replaced by a stub, and the rest is still evaluated."""
 import json
@@ -15,6 +15,7 @@ import time
 from vlib import common
 
 NPKG = 8
+VERSION = 3   # bump when the assembler changes: cached stage-2 results of older versions are redone
 MAX_ROUNDS = 40
 
 
@@ -66,9 +67,13 @@ class Stage2:
 
     def write_pkg(self, pi):
         lo, hi = pi * self.chunk, min(len(self.texts), (pi + 1) * self.chunk)
+        hdr = os.path.join(self.dir, "header.txt")   # written by gengostring: imports of every type package
+        if os.path.exists(hdr):
+            header = open(hdr).read().rstrip("\n").split("\n")
+        else:
+            header = ["import (", "\t\"reflect\"", "", "\t\"corpus/ext\"", "\t\"corpus/p\"", ")", "", "var _ ext.XN", "var _ p.NI"]
         out = ["// Code assembled by the C06 check from the texts returned by derived GoString. DO NOT EDIT.",
-               "package ev%d" % pi, "", "import (", "\t\"reflect\"", "", "\t\"corpus/ext\"", "\t\"corpus/p\"", ")", "",
-               "var _ ext.XN", "var _ p.NI", "",
+               "package ev%d" % pi, ""] + header + ["",
                "var Fns = []func() reflect.Value{" + ", ".join("f%d" % k for k in range(lo, hi)) + "}", ""]
         spans = []
         for k in range(lo, hi):
@@ -142,7 +147,7 @@ class Stage2:
         self.write_all()
         log = ""
         for rnd in range(MAX_ROUNDS):
-            p = subprocess.run(["go", "build", "-gcflags=-e", "-o", "stage2.bin", "./stage2"], cwd=self.cdir, timeout=3000,
+            p = subprocess.run(["go", "build", "-gcflags=corpus/stage2/...=-e", "-o", "stage2.bin", "./stage2"], cwd=self.cdir, timeout=3000,
                                env=common.GOENV, stdout=subprocess.PIPE, stderr=subprocess.PIPE)
             if p.returncode == 0:
                 return True, log
@@ -184,7 +189,7 @@ def stage2(info):
     with common.Lock("corpus-" + os.path.basename(cdir) + "-s2"):
         if os.path.exists(mark):
             r = json.load(open(mark))
-            if r.get("tag") == info.get("tag"):
+            if r.get("tag") == info.get("tag") and r.get("version") == VERSION:
                 return r
         t0 = time.time()
         s1 = os.path.join(cdir, "stage1.txt")
@@ -193,7 +198,7 @@ def stage2(info):
         texts, words = assemble(cdir)
         s = Stage2(cdir, texts, words)
         ok, log = s.build()
-        r = {"tag": info.get("tag"), "distinct_texts": len(texts), "stage1_panics": len(words), "build_ok": ok,
+        r = {"tag": info.get("tag"), "version": VERSION, "distinct_texts": len(texts), "stage1_panics": len(words), "build_ok": ok,
              "build_log": log if not ok else "", "packages": s.npkg,
              "compile_errors": [{"type": texts[k][0], "ops": texts[k][2][:5], "text": texts[k][1][:2000], "error": msg}
                                 for k, msg in sorted(s.bad.items())][:50],
